@@ -38,6 +38,12 @@ type carrier struct {
 }
 
 func runC08(c *report.Ctx) {
+	checkCarriersAll(c)
+	runC08rest(c)
+}
+
+// checkCarriersAll: R-RESET over every state carrier (shared with C05 and C07 since round 9).
+func checkCarriersAll(c *report.Ctx) {
 	c.Clause("1 reset completeness")
 	carriers := []carrier{
 		{pkg: "L/core", typ: "registrationServiceImpl", ctors: []string{"L/core.NewRegistrationService"}, resetRoots: []string{"L/core.registrationServiceImpl.Clear"},
@@ -68,6 +74,9 @@ func runC08(c *report.Ctx) {
 	for _, cr := range carriers {
 		checkCarrier(c, cr)
 	}
+}
+
+func runC08rest(c *report.Ctx) {
 	// the flow objects hold no state of their own: their Clear must reach every gate (same rule as C11 clause 6)
 	checkFlow(c, "initFlowSynchronizationImpl", []string{"Clear"}, map[string]string{"Clear": "Clear"}, nil)
 	checkFlow(c, "invokeFlowSynchronizationImpl", []string{"Clear"}, map[string]string{"Clear": "Clear"}, nil)
